@@ -138,8 +138,10 @@ func runC15(c *Ctx) {
 				}
 			})
 		}
-		if w.NextWriter != nil {
-			provs[w.NextWriter] = true
+		for _, fn := range p.Funcs {
+			if c.isLockedWriterProvider(fn) {
+				provs[fn] = true
+			}
 		}
 		n := 0
 		for _, fn := range p.Funcs {
